@@ -96,3 +96,70 @@ def observation_diagnostics(ctx: Ctx):
         if not good and len(examples) < 3:
             examples.append({"function": fn})
     ctx.extra.setdefault("internal_diagnostics", {})["observation"] = {"compared": ok + bad, "different": bad, "examples": examples}
+
+
+def params_diagnostics(ctx: Ctx):
+    """utils.popfirst / popat / unflatten_and_split / flatten vs Params.v"""
+    from lymph import utils
+    rng = ctx.rng
+    cases, exprs = [], []
+
+    def P(name):   # python key -> Coq path
+        return lst(s(x) for x in name.split("_")) if name else "[]"
+
+    for _ in range(25):
+        n = rng.randint(0, 4)
+        seq = [rng.randint(0, 9) for _ in range(n)]
+        idx = rng.randint(-6, 6)
+        cases.append(("popat", (seq, idx)))
+        exprs.append(f"popat {lst(nat(v) for v in seq)} ({idx})%Z")
+        cases.append(("popfirst", (seq,)))
+        exprs.append(f"popfirst {lst(nat(v) for v in seq)}")
+    heads = ["ipsi", "contra", "ext", "TtoII", "late", "spread", "mixing"]
+    for _ in range(25):
+        keys = []
+        for _k in range(rng.randint(0, 5)):
+            k = "_".join(rng.choice(heads) for _ in range(rng.randint(1, 3)))
+            if k not in keys:
+                keys.append(k)
+        mapping = {k: rng.randint(0, 9) for k in keys}
+        expected = rng.sample(heads, rng.randint(0, 3))
+        cases.append(("unflatten_and_split", (mapping, expected)))
+        kw = lst(tup(P(k), f"(V (qc {v} 1))") for k, v in mapping.items())
+        exprs.append(f"let r := unflatten_and_split {kw} {lst(s(e) for e in expected)} in "
+                     f"(map (fun kv => (fst kv, map (fun x => (fst x, match snd x with V q => qout q | Bad => (0, 0) end)) (snd kv))) (fst r), "
+                     f"map (fun x => (fst x, match snd x with V q => qout q | Bad => (0, 0) end)) (snd r))")
+    res = run_coq_cases(ctx.work / "diag-params", exprs,
+                        "Base States Linalg Graph Transition Observation Dist Unilateral Models Params", shard=200)
+    ok = bad = 0
+    examples = []
+
+    def unopt(v):
+        return None if v is None else (v[1] if isinstance(v, tuple) and v and v[0] == "Some" else v)
+
+    for (fn, args), v in zip(cases, res):
+        try:
+            if fn == "popat":
+                b, x, a = utils.popat(list(args[0]), args[1])
+                mb, mx, ma = v
+                good = (list(b), x, list(a)) == (list(mb), unopt(mx), list(ma))
+            elif fn == "popfirst":
+                x, rest = utils.popfirst(list(args[0]))
+                mx, mrest = v
+                good = (x, list(rest)) == (unopt(mx), list(mrest))
+            else:
+                split, glob = utils.unflatten_and_split(dict(args[0]), expected_keys=list(args[1]))
+                msplit, mglob = v
+                py_split = [(k, [(kk.split("_") if kk else [], vv) for kk, vv in d.items()]) for k, d in split.items()]
+                py_glob = [(k.split("_"), vv) for k, vv in glob.items()]
+                m_split = [(k, [(list(p), fracs(q_)) for p, q_ in d]) for k, d in msplit]
+                m_glob = [(list(p), fracs(q_)) for p, q_ in mglob]
+                good = py_split == [(k, [(p, float(q_)) for p, q_ in d]) for k, d in m_split] and \
+                    py_glob == [(p, float(q_)) for p, q_ in m_glob]
+        except Exception as e:  # noqa: BLE001
+            good = False
+        ok += good
+        bad += not good
+        if not good and len(examples) < 3:
+            examples.append({"function": fn, "args": repr(args)[:200]})
+    ctx.extra.setdefault("internal_diagnostics", {})["params_helpers"] = {"compared": ok + bad, "different": bad, "examples": examples}
